@@ -321,3 +321,201 @@ pub fn run_bfs(ctx: &Ctx, name: &str, shapes: &[(usize, usize)], mode: Mode, dep
     }
     explore_replayed(ctx, &format!("clone-free {}", name), inits, BfsOpts { max_depth: depth.saturating_sub(1).max(3), state_cap: 2_000_000 });
 }
+
+// --- element types other than the exact rationals: f64 and Complex<f64> on exactly representable data -------------------
+use crate::model::CQ;
+use ohsl::Cmplx;
+
+pub trait Elt: Copy + ohsl::Number + std::fmt::Debug + PartialEq {
+    const NAME: &'static str;
+    const COMPLEX: bool;
+    fn of(z: CQ) -> Self;
+    fn same(&self, z: CQ) -> bool;
+}
+fn representable(x: Rat) -> bool {
+    Rat::from_f64_exact(x.to_f64()) == Some(x)
+}
+impl Elt for f64 {
+    const NAME: &'static str = "f64";
+    const COMPLEX: bool = false;
+    fn of(z: CQ) -> f64 {
+        assert!(representable(z.re) && z.im.is_zero(), "harness: value not representable in f64");
+        z.re.to_f64()
+    }
+    fn same(&self, z: CQ) -> bool {
+        *self == z.re.to_f64() && z.im.is_zero()
+    }
+}
+impl Elt for Cmplx {
+    const NAME: &'static str = "Complex<f64>";
+    const COMPLEX: bool = true;
+    fn of(z: CQ) -> Cmplx {
+        assert!(representable(z.re) && representable(z.im), "harness: value not representable in Complex<f64>");
+        Cmplx::new(z.re.to_f64(), z.im.to_f64())
+    }
+    fn same(&self, z: CQ) -> bool {
+        self.real == z.re.to_f64() && self.imag == z.im.to_f64()
+    }
+}
+pub type CM = BTreeMap<(usize, usize), CQ>;
+fn show_cm(m: &CM) -> String {
+    m.iter().map(|(k, v)| format!("({},{})={}{:+}i", k.0, k.1, v.re.to_f64(), v.im.to_f64())).collect::<Vec<_>>().join(" ")
+}
+pub fn typed_views<T: Elt>(s: &Sparse<T>, rows: usize, cols: usize, m: &CM) -> Result<(), String> {
+    let nnz = m.len();
+    let csc = || format!("rows={} cols={} nonzero={} val={:?} row_index={:?} col_start={:?}", s.rows, s.cols, s.nonzero, s.val, s.row_index, s.col_start);
+    ensure!(s.rows == rows && s.cols == cols && s.nonzero == nnz && s.val.len() == nnz && s.row_index.len() == nnz && s.col_start.len() == cols + 1, "shape / counts [{}] expected {}x{} with {} entries", csc(), rows, cols, nnz);
+    ensure!(s.col_start[0] == 0 && s.col_start[cols] == nnz && (0..cols).all(|j| s.col_start[j] <= s.col_start[j + 1]), "col_start ill-formed [{}]", csc());
+    let mut seen = 0;
+    for j in 0..cols {
+        for k in s.col_start[j]..s.col_start[j + 1] {
+            ensure!(s.row_index[k] < rows, "row index out of range [{}]", csc());
+            match m.get(&(s.row_index[k], j)) {
+                Some(z) if s.val[k].same(*z) => seen += 1,
+                other => return Err(format!("stored entry ({},{}) = {:?} expected {:?} [{}] model {}", s.row_index[k], j, s.val[k], other, csc(), show_cm(m))),
+            }
+        }
+    }
+    ensure!(seen == nnz, "compressed form holds {} of the {} model entries [{}]", seen, nnz, csc());
+    let d = s.to_dense();
+    ensure!(d.rows() == rows && d.cols() == cols, "to_dense shape");
+    for i in 0..rows {
+        for j in 0..cols {
+            let e = m.get(&(i, j)).copied();
+            let g = s.get(i, j);
+            ensure!(match (g, e) { (None, None) => true, (Some(a), Some(b)) => a.same(b), _ => false }, "get({},{}) = {:?} expected {:?} [{}]", i, j, g, e, csc());
+            ensure!(d[(i, j)].same(e.unwrap_or(CQ::zero())), "to_dense({},{}) = {:?} expected {:?}", i, j, d[(i, j)], e);
+        }
+    }
+    let t = s.to_triplets();
+    ensure!(t.len() == nnz, "to_triplets has {} entries expected {}", t.len(), nnz);
+    let ci = s.col_index();
+    ensure!(ci.size() == nnz, "col_index size");
+    for w in 0..nnz {
+        ensure!(m.get(&(t[w].0, t[w].1)).map(|z| t[w].2.same(*z)).unwrap_or(false), "to_triplets entry {:?} not in the model {}", t[w], show_cm(m));
+        ensure!(ci[w] == t[w].1 && (w == 0 || t[w - 1].1 <= t[w].1), "col_index / triplet column order at {}", w);
+    }
+    Ok(())
+}
+/// One sparsity pattern of a rows x cols Sparse<T>, values from `letters` by position, every operation against exact Gaussian-rational arithmetic.
+/// `letters` x `factors` must have exactly representable products (asserted by `Elt::of`).
+pub fn typed_sparse_case<T: Elt>(rows: usize, cols: usize, cells: &[(usize, usize)], shift: usize, letters: &[CQ], factors: &[CQ], xs: &[CQ]) -> Result<(), String> {
+    let l = letters.len();
+    let value = |i: usize, j: usize| letters[(i * cols + j + shift) % l];
+    let mut m = CM::new();
+    for &(i, j) in cells {
+        m.insert((i, j), value(i, j));
+    }
+    let build = |rev: bool| -> Sparse<T> {
+        let mut t: Vec<(usize, usize, T)> = cells.iter().map(|&(i, j)| (i, j, T::of(value(i, j)))).collect();
+        if rev {
+            t.reverse();
+        }
+        Sparse::from_triplets(rows, cols, &mut t)
+    };
+    let s = build(false);
+    typed_views(&s, rows, cols, &m).map_err(|e| format!("{} from_triplets: {}", T::NAME, e))?;
+    typed_views(&build(true), rows, cols, &m).map_err(|e| format!("{} from_triplets (reversed list): {}", T::NAME, e))?;
+    // transposition
+    let mt: CM = m.iter().map(|(k, v)| ((k.1, k.0), *v)).collect();
+    typed_views(&s.transpose(), cols, rows, &mt).map_err(|e| format!("{} transpose: {}", T::NAME, e))?;
+    // scaling: every stored value times the factor, exactly
+    for f in factors {
+        let mut sc = build(true);
+        sc.scale(&T::of(*f));
+        let ms: CM = m.iter().map(|(k, v)| (*k, v.mul(*f))).collect();
+        typed_views(&sc, rows, cols, &ms).map_err(|e| format!("{} scale({:?}): {}", T::NAME, T::of(*f), e))?;
+        // overwrite after scaling, then a fresh insert
+        if let Some(&(i, j)) = cells.first() {
+            let mut m2 = ms.clone();
+            sc.insert(i, j, T::of(letters[0]));
+            m2.insert((i, j), letters[0]);
+            typed_views(&sc, rows, cols, &m2).map_err(|e| format!("{} scale then overwrite: {}", T::NAME, e))?;
+        }
+    }
+    let mut si = build(false);
+    let mut mi = m.clone();
+    'outer: for i in 0..rows {
+        for j in 0..cols {
+            if !mi.contains_key(&(i, j)) {
+                si.insert(i, j, T::of(letters[l - 1]));
+                mi.insert((i, j), letters[l - 1]);
+                typed_views(&si, rows, cols, &mi).map_err(|e| format!("{} fresh insert ({},{}): {}", T::NAME, i, j, e))?;
+                break 'outer;
+            }
+        }
+    }
+    // products with vectors over xs (callers pass letters/xs whose dot products are exact)
+    if !xs.is_empty() {
+        for rot in 0..xs.len() {
+            let x: Vec<CQ> = (0..cols).map(|k| xs[(k + rot) % xs.len()]).collect();
+            let y: Vec<CQ> = (0..rows).map(|k| xs[(2 * k + rot) % xs.len()]).collect();
+            let xv: Vector<T> = Vector::create(x.iter().map(|z| T::of(*z)).collect());
+            let yv: Vector<T> = Vector::create(y.iter().map(|z| T::of(*z)).collect());
+            let ax = s.multiply(&xv);
+            let aty = s.transpose_multiply(&yv);
+            ensure!(ax.size() == rows && aty.size() == cols, "{} product sizes", T::NAME);
+            for i in 0..rows {
+                let e = (0..cols).fold(CQ::zero(), |a, j| a.add(m.get(&(i, j)).map(|v| v.mul(x[j])).unwrap_or(CQ::zero())));
+                ensure!(ax[i].same(e), "{} multiply: row {} = {:?} expected {:?} (x = {:?}) model {}", T::NAME, i, ax[i], T::of(e), xv.vec, show_cm(&m));
+            }
+            for j in 0..cols {
+                let e = (0..rows).fold(CQ::zero(), |a, i| a.add(m.get(&(i, j)).map(|v| v.mul(y[i])).unwrap_or(CQ::zero())));
+                ensure!(aty[j].same(e), "{} transpose_multiply: column {} = {:?} expected {:?} (y = {:?}) model {}", T::NAME, j, aty[j], T::of(e), yv.vec, show_cm(&m));
+            }
+        }
+    }
+    Ok(())
+}
+pub fn cqi(re: i64, im: i64) -> CQ {
+    CQ::new(r(re), r(im))
+}
+/// 2^k as an exact rational (k may be negative)
+pub fn p2(k: i32) -> Rat {
+    if k >= 0 {
+        Rat { n: 1i128 << k, d: 1 }
+    } else {
+        Rat { n: 1, d: 1i128 << (-k) }
+    }
+}
+/// Registers the typed lattices: every sparsity pattern of the given shapes for f64 and Complex<f64>.
+pub fn typed_spaces(ctx: &Ctx, shapes: &[(usize, usize)], with_products: bool) {
+    // mixed-magnitude letters: component-wise exactness of a product needs each part computed from its own two partial products
+    let wide_c: Vec<CQ> = vec![CQ::new(r(1), p2(40)), CQ::new(p2(40), r(-1)), cqi(3, 4), cqi(0, -2), CQ::new(p2(-1), -p2(-2)), CQ::new(p2(-20), p2(20)), cqi(-5, 0)];
+    let fac_c: Vec<CQ> = vec![cqi(1, 0), cqi(-1, 0), cqi(0, 1), cqi(2, 0), cqi(1, 1), cqi(-3, 4), cqi(0, 0), cqi(0, -2)];
+    // parts 2^56 apart (their sum is not representable) with factors on the axes, where each part of the product is a single partial product
+    let huge_c: Vec<CQ> = vec![CQ::new(r(1), p2(56)), CQ::new(-p2(56), r(3)), CQ::new(p2(-30), p2(30)), cqi(2, -7), CQ::new(r(-1), -p2(55))];
+    let axis_c: Vec<CQ> = vec![cqi(1, 0), cqi(-1, 0), cqi(0, 1), cqi(0, -2), cqi(2, 0), cqi(0, 0)];
+    let wide_r: Vec<CQ> = vec![CQ::new(p2(40) + r(1), r(0)), cqi(-3, 0), CQ::new(p2(-20), r(0)), cqi(7, 0), CQ::new(-p2(-1), r(0))];
+    let fac_r: Vec<CQ> = vec![cqi(1, 0), cqi(-1, 0), cqi(3, 0), CQ::new(p2(-3), r(0)), cqi(0, 0)];
+    // tame letters for products (all partial sums exact)
+    let tame_c: Vec<CQ> = vec![cqi(1, 1), cqi(0, -2), cqi(3, 0), cqi(-1, 2), cqi(0, 1)];
+    let tame_r: Vec<CQ> = vec![cqi(1, 0), cqi(-2, 0), cqi(3, 0), CQ::new(p2(-1), r(0))];
+    for &(rows, cols) in shapes {
+        let len = 1u64 << (rows * cols);
+        let (wc, fc, wr, fr, tc, tr, hc, ac) = (wide_c.clone(), fac_c.clone(), wide_r.clone(), fac_r.clone(), tame_c.clone(), tame_r.clone(), huge_c.clone(), axis_c.clone());
+        ctx.lattice(
+            &format!("Sparse<f64> and Sparse<Complex<f64>> {}x{}: every sparsity pattern x 2 value shifts, exactly representable data of mixed magnitude: views, transpose, scale by {} factors, overwrite, insert{}", rows, cols, fac_c.len(), if with_products { ", products" } else { "" }),
+            len * 2,
+            |i| format!("{}x{} cells={:?} shift={}", rows, cols, pattern_cells(rows, cols, i / 2), i % 2),
+            |i, acc| {
+                let cells = pattern_cells(rows, cols, i / 2);
+                let shift = (i % 2) as usize * 3;
+                if !cells.is_empty() {
+                    acc.nontriv("typed sparse case (f64, Complex<f64>)");
+                }
+                let key = || format!("{}x{} cells={:?} shift={}", rows, cols, cells, shift);
+                judge(acc, i, key, || {
+                    typed_sparse_case::<Cmplx>(rows, cols, &cells, shift, &wc, &fc, &[])?;
+                    typed_sparse_case::<Cmplx>(rows, cols, &cells, shift, &hc, &ac, &[])?;
+                    typed_sparse_case::<f64>(rows, cols, &cells, shift, &wr, &fr, &[])?;
+                    if with_products {
+                        typed_sparse_case::<Cmplx>(rows, cols, &cells, shift, &tc, &fc[..6], &tc)?;
+                        typed_sparse_case::<f64>(rows, cols, &cells, shift, &tr, &fr[..4], &tr)?;
+                    }
+                    Ok(())
+                });
+            },
+        );
+    }
+}
